@@ -197,12 +197,7 @@ Fixpoint has_job_dir (n : node) : bool :=
   | _ => false
   end.
 
-Fixpoint later_conflict (ks : list path) : bool :=
-  match ks with
-  | [] => false
-  | k :: ks' => existsb (proper_prefix k) ks' || later_conflict ks'
-  end.
-
+(* open findings only: 3 = empty selection links an unselected job, 5 = the leaf name used as a token *)
 Definition classify_C17 (k : case_C17) : N :=
   let c := k_call k in
   let vp := vprefix c (c_prefix c) in
@@ -210,16 +205,9 @@ Definition classify_C17 (k : case_C17) : N :=
   | Err _ => 0
   | Ok lk =>
       let ks := keys_of lk in
-      if is_nil (c_jobs c) && negb (is_nil (c_all c)) then 3          (* empty selection links an unselected job *)
-      else if Nat.ltb (length lk) (length (c_jobs c)) then 2          (* two jobs, one path: silently merged     *)
-      else if existsb is_abs ks then 6                                (* nested value starting with the separator: absolute key *)
-      else if check_structure [] ks && later_conflict ks then 1       (* order dependent leaf/node check (F15)   *)
+      if is_nil (c_jobs c) && negb (is_nil (c_all c)) then 3
       else if existsb nonfinal_has_job ks
               || match get (k_pre k) vp with Some n => has_job_dir n | None => false end then 5
-      else if existsb (fun q => match relnorm q with Some q' => negb (path_eqb q q') | None => true end) ks
-              || path_mem [s_job] ks
-              || (match get (k_pre k) (vp ++ [s_job]) with Some _ => true | None => false end
-                  && negb (path_mem [s_dot; s_job] ks)) then 4          (* "./job" vs "job": keys not normalised *)
       else 0
   end.
 
